@@ -1333,6 +1333,32 @@ func oracleCrashImage(o *e2eOutcome, v vfn) {
 // oracleNoDuplicateData (C07): a restarted sender re-sends only what the
 // receiver does not report holding
 func oracleNoDuplicateData(o *e2eOutcome, v vfn) {
+	// the sent log is consulted after a restart so that a file that was logged as sent
+	// before the crash is not logged again when the start-up recovery poll confirms it:
+	// a record written during generation g's recovery phase (before its first scan) for a
+	// (name, hash) whose record was already on disk when generation g started
+	firstScanOf := map[int]int{}
+	for _, e := range o.events {
+		if e.Kind == "scan" {
+			if _, ok := firstScanOf[e.Gen]; !ok {
+				firstScanOf[e.Gen] = e.Seq
+			}
+		}
+	}
+	o.w.regMu.Lock()
+	atStart := o.w.sentLogAtStart
+	o.w.regMu.Unlock()
+	for _, e := range o.events {
+		if e.Kind != "sent_logged" || e.Gen < 2 {
+			continue
+		}
+		if fs, ok := firstScanOf[e.Gen]; ok && e.Seq > fs {
+			continue
+		}
+		if atStart[e.Gen][e.Name+"|"+e.S] > 0 {
+			v("C07", "sent-log-once", "sent-logged-again-after-restart", fmt.Sprintf("%s (hash %s): the sent log already held a record of it when sender generation %d started, and that generation's start-up recovery wrote another one", e.Name, e.S, e.Gen))
+		}
+	}
 	maxGen := 0
 	for _, r := range o.reqs {
 		if r.Gen > maxGen {
